@@ -1,8 +1,61 @@
 """C20, C21 (memory half), C24 -- spec/MapBroker bound to the real MemoryMapBroker (map_broker_memory.go, map_broker.go).
-(The map half of C19 -- per-key versions, idempotency -- is stated as action properties of the same spec and is checked
-together with C20; the C19 check itself is owned by fam/membroker.py.)
+(The map half of C19 -- per-key versions, idempotency -- is stated as action properties of the same spec (VersionExact,
+UnversionedKeepsVersion, VersionedStoresVersion, IdemReturnsOriginal, IdemSavedOnApply) and is checked together with C20;
+the C19 check itself is owned by fam/membroker.py.)
 
-Mutation testing (FRAMEWORK.md rule 3, scratch worktrees /tmp/mapbroker-*, all removed): see MUTATIONS below.
+Pieces
+  spec/MapBroker/MapBroker.tla        one channel: state, stream window, epochs, idempotency cache, the three sweepers, two-phase
+                                      key expiry (ExpirePhase1 / ExpirePhase2), pagination operators + independent SortedKeys
+  quick-checks / quick-time .cfg      exhaustive (quick); thorough-{checks,time,modes,race}.cfg (thorough)
+  MapBrokerSim.tla sim.cfg manual.cfg behaviour generators (own sweepers, Deterministic / manual sweeps with a gate between the phases)
+  MapBrokerPages.tla pages*.cfg       C21 table: all key sets over {a,b,c,d} x score assignments, all page sizes, both directions
+  MapBrokerTrace.tla trace.cfg        trace validation of recorded executions (thorough tier)
+  harness/mapbroker (replay, expiry, pages, trace), overlay/mapbroker/shim.go (option setters, handler without goroutines,
+                                      manual expireKeysIteration, read-only snapshot)
+
+No hook in /repo is needed: the window between phase 1 and phase 2 of expireKeysIteration is held open by a natural gate
+(phase 2 calls the event handler for a decoy channel whose key expires first; the harness' handler parks there).
+
+Findings on the unchanged tree: none (seeds 1-5 quick, seed 1 thorough: exit 0).  Observations (not violations of the statements):
+a channel whose MetaTTL equals (or is within ~1 s of) its KeyTTL can be dropped by removeChannels before expireKeys ran, the
+keys then vanish without removal broadcast (the epoch changes, clients resync); expired-but-unswept keys (<= 1 s) still count as
+existing for key modes / CAS / versions and are returned by ReadState; per-key version memory ends with Remove / expiry.
+
+Mutation testing (FRAMEWORK.md rule 3; scratch worktrees /tmp/mapbroker-<name>, `VERIF_REPO=... ./check Cxx --tier quick`, all
+worktrees removed).  exit 1 = caught.
+ C20
+  cas_before_keymode            CAS block of mapHub.add moved before the key-mode block                    exit 1 (reason position_mismatch != key_not_found / key_exists)
+  suppressed_refreshes_version  key_exists-suppressed publish stores its (higher) version                  exit 1 (snapshot: stored version)
+  suppressed_appends            key_not_found-suppressed publish still calls stream.Add                    exit 1 (returned offset / stream)
+  version_lt                    `opts.Version < existing.Version` instead of <=                            exit 1 (equal version accepted; reason order)
+  unversioned_resets_version    unversioned publish stores version 0                                       exit 1 (snapshot: stored version)
+  clear_keeps_result_cache      Clear does not clear the channel's idempotency results                     exit 1 (idempotency after Clear; needed the SimIdem slot)
+  broadcast_offset_before_incr  HandlePublication gets offset-1                                            exit 1 (broadcast offset)
+  cas_ignores_epoch             CAS compares the offset only                                               exit 1 (applied where position_mismatch expected)
+  remove_notfound_before_cas    Remove reports key_not_found before the CAS check                          exit 1
+  idem_saved_on_suppress        suppressed publishes save an idempotency result                            exit 1
+  remove_no_stream_ttl_touch    Remove does not extend the stream TTL                                      exit 1 (stream survives its model deadline); bookkeeping-only runs: exit 2
+  (asked for but not applicable: "if-exists treats an expired-but-unswept key as existing" IS the code's behaviour -- existence is
+   membership in channel.state, deadlines are only acted on by the sweeper; modelled as such.)
+ C21
+  tie_cursor                    ordered cursor search uses >= / <= on equal scores                         exit 1 (duplicate key, no progress)
+  desc_skips_first              descending pages start one past the cursor position                        exit 1
+  unordered_restart             unordered cursor of a removed key restarts at 0                            exit 1 (probe with absent cursor key)
+  cursor_off_by_one             next cursor names the second-to-last key of the page                       exit 1 (pages table only)
+  sort_cache_ignores_direction  sorted-key cache not rebuilt when Asc changes                              exit 1
+  single_key_ignores_missing    Key lookup of an absent key returns another entry                          exit 1
+  score_parse_32bit             cursor score parsed with bitSize 32                                        exit 1 (min/max int64 scores)
+ C24
+  phase2_no_revalidation        phase 2 removes whenever the key exists (deadline not compared)            exit 1 (gated expiry mode only: refreshed key removed)
+  broadcast_without_stream_entry phase 2 does not append the removal                                       exit 1
+  double_removal                phase 2 also "removes" a key that is gone                                  exit 1 (expiry + replay + trace monitor)
+  keepalive_leaves_entry_deadline RefreshTTLOnSuppress updates the queue but not entry.ExpireAt            exit 1 (deadline; key never expires)
+  stream_entry_without_broadcast phase 2 never dispatches                                                  exit 1
+  phase1_deletes_state          state deleted in phase 1, phase 2 only appends (the pre-fix design)        exit 1 (10 signatures)
+  refresh_not_requeued_in_phase2 a key refreshed between the phases loses its keyExpires entry             exit 1 (gated expiry mode only: key never expires)
+  leaves_ordered_index          phase 2 keeps channel.scores[key] / does not mark sortedKeys dirty        exit 2: unobservable through the API (the sorted
+                                cache is rebuilt because its length differs; scores are only read for keys of the state) -- reported as drift
+  remove_keeps_keyexpires       Remove leaves keyExpires[ch,key]                                           exit 0: equivalent (phase 1 drops entries of absent keys)
 """
 import os
 
@@ -200,5 +253,3 @@ META = {
                      'real code: the sweep is parked between its phases by a natural gate and the model\'s operations run in the window.',
                 note=_note, technique='TLA+ spec + TLC exhaustive; gated behaviour replay (manual sweeps); behaviour replay with the real sweepers'),
 }
-
-MUTATIONS = """(filled in after mutation testing)"""
